@@ -216,6 +216,16 @@ def ops(p):
         if a != b:
             out.append(("rename_two:%s+%s" % (a, b), ["--rename", "%s=%s_NEW,%s=%s_NEW" % (a, a, b, b)],
                         {"callable": (a, a + "_NEW"), "callable2": (b, b + "_NEW"), "combined": True}))
+    # several top-level calls, one of which is also called by another: what a pipeline named as a
+    # top-level call returns is in use, whoever else calls it
+    subs = sorted({c["callee"] for pl in p["pipelines"] if pl["name"] == top for c in pl["calls"]
+                   if any(q["name"] == c["callee"] for q in p["pipelines"])})
+    for sname in subs[:2]:
+        for order in ((sname, top), (top, sname)):
+            out.append(("remove_unused_outputs_tops:%s" % "+".join(order), ["--top-calls", ",".join(order)],
+                        {"unused": True, "tops": list(order)}))
+            out.append(("remove_unused_calls_tops:%s" % "+".join(order), ["--remove-unused-calls", "--top-calls", ",".join(order)],
+                        {"unused": True, "tops": list(order)}))
     out.append(("remove_unused_calls", ["--remove-unused-calls", "--top-calls", top], {"unused": True}))
     out.append(("remove_unused_outputs", ["--top-calls", top], {"unused": True}))
     return out
